@@ -80,7 +80,7 @@ func (l *verif17Loop) stop() {
 type verif17NoEvents struct{}
 
 func (verif17NoEvents) Produce(*networkevent.Event) {}
-func (verif17NoEvents) Close() error               { return nil }
+func (verif17NoEvents) Close() error                { return nil }
 
 // ---- stub archive with one torrent ----
 
